@@ -294,6 +294,7 @@ func evalOb(c *Ctx, e *e1, ob Ob) (nMatched int) {
 						cands = append(cands, r)
 						cands = append(cands, f.expandDefs(s.states[0], r)...)
 					}
+					cands = append(cands, rewriteClosure(s.states[0], st, 160)...)
 					for _, x := range cands {
 						nb := base.clone()
 						if unify(pat, x, nb) {
@@ -305,6 +306,11 @@ func evalOb(c *Ctx, e *e1, ob Ob) (nMatched int) {
 				if !matchedX {
 					if os.Getenv("E1DEBUGOB") == ob.ID {
 						fmt.Fprintf(os.Stderr, "  %s: no match %s (chain %q) base=%v\n", ob.ID, st, s.chain, base)
+						if os.Getenv("E1DEBUGFACTS") != "" && len(s.states) > 0 && strings.Contains(st.String(), os.Getenv("E1DEBUGFACTS")) {
+							for _, k := range s.states[0].sortedKeys() {
+								fmt.Fprintf(os.Stderr, "      %s\n", k)
+							}
+						}
 					}
 					if kind == "ret" && s.chain == "" {
 						for i := range s.states {
@@ -486,7 +492,7 @@ func rebindable(t types.Type) bool {
 func expandReturned(st *fstate, t *Term) *Term {
 	vals := map[string]*Term{}
 	for _, fc := range st.facts {
-		if fc.S == "eq" && len(fc.A) == 2 && (fc.A[0].K == "call" || fc.A[0].K == "mcall") && !mentionsTerm(fc.A[1], fc.A[0]) {
+		if fc.S == "eq" && len(fc.A) == 2 && (fc.A[0].K == "call" || fc.A[0].K == "mcall" || (fc.A[0].K == "res" && len(fc.A[0].A) == 1 && (fc.A[0].A[0].K == "call" || fc.A[0].A[0].K == "mcall"))) && !mentionsTerm(fc.A[1], fc.A[0]) {
 			vals[fc.A[0].Key()] = fc.A[1]
 		}
 	}
@@ -529,4 +535,62 @@ func softAnchor(name string) bool {
 		base = base[:i]
 	}
 	return base != "" && base[0] >= 'a' && base[0] <= 'z'
+}
+
+// rewriteClosure: the spellings of a sink term obtained by replacing, one position at a time, a variable by its (still
+// valid) definition, or a variable / call / call result by the value recorded as equal to it on this path.  Breadth
+// first, at most four rewrites deep and at most limit terms.
+func rewriteClosure(st *fstate, t *Term, limit int) []*Term {
+	alts := map[string][]*Term{}
+	for _, fc := range st.facts {
+		switch {
+		case fc.S == "def" && len(fc.A) == 2 && fc.A[0].K == "var":
+			alts[fc.A[0].Key()] = append(alts[fc.A[0].Key()], fc.A[1])
+		case fc.S == "def" && len(fc.A) == 3 && fc.A[0].K == "var":
+			alts[fc.A[0].Key()] = append(alts[fc.A[0].Key()], mk("res", fc.A[2].S, fc.A[1]))
+		case fc.S == "eq" && len(fc.A) == 2 && !mentionsTerm(fc.A[1], fc.A[0]) && fc.A[1].K != "nil" && fc.A[1].K != "const":
+			k := fc.A[0].K
+			if k == "call" || k == "mcall" || k == "res" || k == "var" {
+				alts[fc.A[0].Key()] = append(alts[fc.A[0].Key()], fc.A[1])
+			}
+		}
+	}
+	if len(alts) == 0 {
+		return nil
+	}
+	seen := map[string]bool{t.Key(): true}
+	var out []*Term
+	frontier := []*Term{t}
+	// every single-position rewrite of t
+	var step func(t *Term, top bool, emit func(*Term))
+	step = func(t *Term, top bool, emit func(*Term)) {
+		if !top {
+			for _, a := range alts[t.Key()] {
+				emit(a)
+			}
+		}
+		for i, a := range t.A {
+			i := i
+			step(a, false, func(na *Term) {
+				n := &Term{K: t.K, S: t.S, Obj: t.Obj, A: append([]*Term(nil), t.A...)}
+				n.A[i] = na
+				emit(n)
+			})
+		}
+	}
+	for depth := 0; depth < 4 && len(frontier) > 0 && len(out) < limit; depth++ {
+		var next []*Term
+		for _, x := range frontier {
+			step(x, true, func(n *Term) {
+				if len(out) >= limit || seen[n.Key()] {
+					return
+				}
+				seen[n.Key()] = true
+				out = append(out, n)
+				next = append(next, n)
+			})
+		}
+		frontier = next
+	}
+	return out
 }
